@@ -9,7 +9,7 @@ From GV Require Import Base.Outcome Base.AMap Model.GState Model.Creation Model.
 From GV Require Import Model.Derived.
 From GV Require Import Proofs.WFDefs Proofs.HistoryOk Proofs.QueryOk Proofs.DegreeOk Proofs.NoPanic Proofs.DerivedContent Proofs.QueryTotal.
 From Coq Require Import ZArith QArith String.
-From GV Require Import Model.Dijkstra Spec.EdgeStoreGraph Proofs.DijkstraTotalOk Proofs.DijkstraModelOk Proofs.DijkstraWF Proofs.DijkstraWFExamples.
+From GV Require Import Model.Dijkstra Spec.EdgeStoreGraph Proofs.DijkstraTotalOk Proofs.DijkstraModelOk Proofs.DijkstraErrKind Proofs.DijkstraWF Proofs.DijkstraWFExamples.
 Import ListNotations.
 
 Section C20.
@@ -186,35 +186,70 @@ Section C20.
     WF g -> small_adj g -> fine (single_source teqb g weighted source target cutoff fo wp).
   Proof. exact (wf_single_source_fine teqb tltb). Qed.
 
-  (* multi_source / all_pairs / get_all_shortest_paths_involving unwrap the per-source
-     Result (dijkstra.rs:376, :172), so with NEGATIVE weights a ContradictoryPaths becomes a
-     panic (C20_negative_weights_panic below): for them the statement is for non-negative
-     stored weights (hop count: none needed) and a cutoff >= 0, any names, any options. *)
-  Theorem C20_multi_source_never_panics_partial : forall threads (g : gstate) weighted sources target cutoff fo wp,
-    WF g -> small_adj g -> (weighted = true -> weights_nonneg g) -> cutoff_exceeded cutoff 0 = false ->
+  (* multi_source / all_pairs: ANY weights (negative ones included), ANY source / target names,
+     ANY options, ANY cutoff.  They collect the per-source `Result`s into `Result<Vec<_>, Error>` and
+     propagate the error with `?` (repair of F22; before it they `.unwrap()`ed the per-source Result at
+     dijkstra.rs:376 / :172, so a ContradictoryPaths was a panic and these two statements carried
+     "non-negative weights, cutoff >= 0" and the suffix _partial).  What remains a hypothesis is
+     [small_adj] alone — the i32 counter, as for single_source. *)
+  Theorem C20_multi_source_never_panics : forall threads (g : gstate) weighted sources target cutoff fo wp,
+    WF g -> small_adj g ->
     fine (multi_source teqb threads g weighted sources target cutoff fo wp).
-  Proof. exact (wf_multi_source_fine teqb tltb teqb_spec tltb_total). Qed.
+  Proof. exact (wf_multi_source_fine teqb tltb teqb_spec). Qed.
 
-  Theorem C20_all_pairs_never_panics_partial : forall threads (g : gstate) weighted target cutoff fo wp,
-    WF g -> small_adj g -> (weighted = true -> weights_nonneg g) -> cutoff_exceeded cutoff 0 = false ->
+  Theorem C20_all_pairs_never_panics : forall threads (g : gstate) weighted target cutoff fo wp,
+    WF g -> small_adj g ->
     fine (all_pairs teqb threads g weighted target cutoff fo wp).
-  Proof. exact (wf_all_pairs_fine teqb tltb teqb_spec tltb_total). Qed.
+  Proof. exact (wf_all_pairs_fine teqb tltb). Qed.
 
-  Theorem C20_involving_never_panics_partial : forall threads (g : gstate) (x : T) weighted,
-    WF g -> small_adj g -> (weighted = true -> weights_nonneg g) ->
+  (* ... and the error channel is used with the documented kinds only (every graph state):
+     NodeNotFound for an absent name, EdgeWeightNotSpecified for weighted = true on a store with an
+     unweighted edge, ContradictoryPaths when a per-source search meets a negative weight *)
+  Theorem C20_multi_source_error_kinds : forall threads (g : gstate) weighted sources target cutoff fo wp k,
+    multi_source teqb threads g weighted sources target cutoff fo wp = Err k ->
+    k = NodeNotFound \/ k = ContradictoryPaths.
+  Proof. exact (multi_source_err teqb). Qed.
+
+  Theorem C20_all_pairs_error_kinds : forall threads (g : gstate) weighted target cutoff fo wp k,
+    all_pairs teqb threads g weighted target cutoff fo wp = Err k ->
+    k = EdgeWeightNotSpecified \/ k = NodeNotFound \/ k = ContradictoryPaths.
+  Proof. exact (all_pairs_err teqb). Qed.
+
+  Theorem C20_single_source_error_kinds : forall (g : gstate) weighted source target cutoff fo wp k,
+    single_source teqb g weighted source target cutoff fo wp = Err k ->
+    k = NodeNotFound \/ k = ContradictoryPaths.
+  Proof. exact (single_source_err teqb). Qed.
+
+  (* get_all_shortest_paths_involving has no error channel (it returns a Vec).  It does NOT unwrap
+     all_pairs: dijkstra.rs:610-612 is `match all_pairs(..) { Err(_) => vec![], Ok(pairs) => .. }`, so
+     once all_pairs returns its Err instead of panicking, this function returns the empty vector:
+     also FULL for any weights and any name (an absent name just matches no path). *)
+  Theorem C20_involving_never_panics : forall threads (g : gstate) (x : T) weighted,
+    WF g -> small_adj g ->
     exists l, get_all_shortest_paths_involving teqb threads g x weighted = Ok l.
-  Proof. exact (wf_involving_fine teqb tltb teqb_spec tltb_total). Qed.
+  Proof. exact (wf_involving_fine teqb tltb). Qed.
+
+  Theorem C20_involving_of_error : forall threads (g : gstate) (x : T) weighted k,
+    all_pairs teqb threads g weighted None None false true = Err k ->
+    get_all_shortest_paths_involving teqb threads g x weighted = Ok [].
+  Proof. exact (involving_of_err teqb). Qed.
 End C20.
 
-(* Why the three _partial statements carry "non-negative weights": on a reachable graph
-   with a negative weight the model of multi_source / all_pairs does panic (the Rust code
-   unwraps the per-source Result), while single_source returns the error. *)
-Example C20_negative_weights_panic :
+(* A reachable (hence WF), small graph with a negative weight — F22's graph: directed 1->2 (1),
+   1->3 (2), 3->2 (-5), weighted = true: single_source, multi_source and all_pairs all return
+   Err ContradictoryPaths (before the repair the last two panicked at dijkstra.rs:376 / :172),
+   get_all_shortest_paths_involving returns the empty vector, hop-count mode answers.  So the
+   theorems above are not vacuous on weights that are not "valid". *)
+Example C20_negative_weights_err :
   match ex_neg with
   | Ok g =>
+    WF Z.eqb Z.ltb g /\ small_adj g /\ ~ weights_nonneg g /\
     single_source Z.eqb g true 1%Z None None false true = Err ContradictoryPaths /\
-    multi_source Z.eqb 1 g true [1%Z] None None false true = Panic "dijkstra.rs:376" /\
-    all_pairs Z.eqb 1 g true None None false true = Panic "dijkstra.rs:172"
+    multi_source Z.eqb 1 g true [1%Z] None None false true = Err ContradictoryPaths /\
+    multi_source Z.eqb 1 g true [2%Z; 1%Z; 3%Z] None None false true = Err ContradictoryPaths /\
+    all_pairs Z.eqb 1 g true None None false true = Err ContradictoryPaths /\
+    get_all_shortest_paths_involving Z.eqb 1 g 3%Z true = Ok [] /\
+    (exists mm, all_pairs Z.eqb 1 g false None None false true = Ok mm /\ List.length mm = 3%nat)
   | _ => False
   end.
-Proof. exact negative_weights_panic. Qed.
+Proof. exact negative_weights_err. Qed.
